@@ -273,6 +273,7 @@ func runC09(r *Report) {
 	ruleHeaderCrc(r)
 	ruleExactLength(r)
 	ruleInputsValidated(r)
+	ruleIndexEntryComplete(r)
 }
 
 // endsInNilReturn: following jumps from b ends in a return with constant-nil error.
